@@ -263,7 +263,48 @@ def e4(prog, ctx):
     return npaths
 
 
+TOLERANCE_MODULES = ["src/junction_comparator.py", "src/long_read_assigner.py", "src/polya_verification.py"]
+
+
+def _like_terms(a, b):
+    """Both operands apply the same function / take the same component of two different objects."""
+    if isinstance(a, ast.Call) and isinstance(b, ast.Call) and dotted(a.func) and dotted(a.func) == dotted(b.func) \
+            and len(a.args) == len(b.args) >= 1 and src(a) != src(b):
+        return True
+    if isinstance(a, ast.Subscript) and isinstance(b, ast.Subscript) and src(a.slice) == src(b.slice) and src(a.value) != src(b.value) \
+            and isinstance(a.slice, ast.Constant):
+        return True
+    return False
+
+
+def e5(prog, ctx):
+    """Symmetric tolerance tests: a difference of two like quantities compared with a tolerance must be an absolute difference."""
+    n_abs = 0
+    for rel in TOLERANCE_MODULES:
+        m = prog.module(rel)
+        for node in ast.walk(m.tree):
+            if not (isinstance(node, ast.Compare) and len(node.ops) == 1 and isinstance(node.ops[0], (ast.Lt, ast.LtE))):
+                continue
+            rhs = src(node.comparators[0])
+            if "self.params." not in rhs:
+                continue
+            l = node.left
+            if isinstance(l, ast.Call) and dotted(l.func) == "abs" and l.args and isinstance(l.args[0], ast.BinOp) \
+                    and isinstance(l.args[0].op, ast.Sub) and _like_terms(l.args[0].left, l.args[0].right):
+                n_abs += 1
+                ctx.ok("E5", "%s:%d" % (rel, node.lineno), "tolerance test on an absolute difference: %s" % src(node)[:80])
+            elif isinstance(l, ast.BinOp) and isinstance(l.op, ast.Sub) and _like_terms(l.left, l.right):
+                fn = enclosing_function(node)
+                ctx.fail("E5", node, getattr(fn, "_qualname", "<module>"), src(node)[:110],
+                         "the difference of two like quantities (%s vs %s) is compared with the tolerance %s without abs(): the test "
+                         "passes for ANY difference of the other sign, so a structural change far beyond the tolerance is accepted "
+                         "as an alignment artefact on one side only" % (src(l.left)[:40], src(l.right)[:40], rhs))
+    ctx.floor("E5", "abs()-wrapped symmetric tolerance tests", n_abs, 3)
+
+
 def run(prog, ctx):
+    ctx.rule("E5", "in the comparators, every `f(a) - f(b) <(=) tolerance(params)` with like terms on both sides is wrapped in abs() "
+                   "(one-sided comparison rule)")
     ctx.rule("E1", "every MatchEventSubtype member in value position in the comparators (emitted set) lies in exactly one of "
                    "is_consistent / is_minor_error / all_major_events; derived sets are consistent; classify_assignment tests "
                    "all-consistent, any-major, any-minor in that order")
@@ -275,6 +316,7 @@ def run(prog, ctx):
     t = EventTables(prog)
     em = e1_e2_e3(prog, ctx, t)
     e4(prog, ctx)
+    e5(prog, ctx)
     ctx.floor("E1", "emitted event members", len(em), 50)
     ctx.floor("E2", "priced events", len(t.cost), 55)
     ctx.extra["exhaustive"] = True
